@@ -1,0 +1,42 @@
+//go:build verif
+// +build verif
+
+// Read-only accessors for the runtime monitors under /verif (build tag verif). They read the
+// balancers' state under the balancers' own locks and are compiled only with the tag.
+
+package loadbalance
+
+// VerifActives returns a copy of the in-flight counters.
+func (lb *LeastActiveLoadBalance) VerifActives() []int64 {
+	lb.rwlock.RLock()
+	defer lb.rwlock.RUnlock()
+	return append([]int64(nil), lb.actives...)
+}
+
+// VerifActives returns a copy of the in-flight counters.
+func (lb *WeightedLeastActiveLoadBalance) VerifActives() []int64 {
+	lb.rwlock.RLock()
+	defer lb.rwlock.RUnlock()
+	return append([]int64(nil), lb.actives...)
+}
+
+// VerifEffectiveWeights returns a copy of the effective weights.
+func (lb *WeightedLeastActiveLoadBalance) VerifEffectiveWeights() []int64 {
+	lb.rwlock.RLock()
+	defer lb.rwlock.RUnlock()
+	return append([]int64(nil), lb.effectiveWeights...)
+}
+
+// VerifEffectiveWeights returns a copy of the effective weights.
+func (lb *NginxRoundRobinLoadBalance) VerifEffectiveWeights() []int64 {
+	lb.lock.Lock()
+	defer lb.lock.Unlock()
+	return append([]int64(nil), lb.effectiveWeights...)
+}
+
+// VerifEffectiveWeights returns a copy of the effective weights.
+func (lb *WeightedRandomLoadBalance) VerifEffectiveWeights() []int64 {
+	lb.rwlock.RLock()
+	defer lb.rwlock.RUnlock()
+	return append([]int64(nil), lb.effectiveWeights...)
+}
